@@ -28,6 +28,8 @@ RULE = ('solvers {cg, cr, cgne, cgnr, bicgstab, steepest_descent, minimal_residu
         '(status, history, #callbacks); all eleven entry points incl. gmres*/fgmres with restart: recomputation oracle '
         '(criterion, counts, last history entry, returned = last callback, converged guess, inputs untouched, finite).  '
         'Non-trivial: at least one iteration; distinct = distinct (solver, system, options).')
+RULE += (' '
+         'Also: each call repeated with only a callback, only a history list, and neither (same x, status, callbacks, history); fixed ill-conditioned probe (cond 1e8, tol 1e-12): status 0 must survive recomputation of the residual.')
 TRUSTED = ['NumPy/SciPy linear algebra on the oracle side', 'determinism of the solvers for identical inputs']
 PARTIAL = ['gmres_mgs, gmres_householder, gmres, fgmres: oracle only (no control model)']
 REFUTED = ['C06_converged_guess_without_early_exit_refuted (steepest_descent as found; repaired by a fix: commit)']
